@@ -37,7 +37,7 @@ type c17Handler struct {
 }
 
 func (h *c17Handler) HandleConsensusMessage(message interfaces.ConsensusMessage) error {
-	tag := int(message.View()) // concrete: the harness numbers the messages in the view field
+	tag := int(message.(*interfaces.PrepareMessage).Content().SignedHeader().BlockHash()[0]) // concrete: the harness numbers the messages in the hash byte
 	m := h.msgs[tag]
 	cur := uint64(h.st.Height())
 	env.Assert("C17.only_own_height", uint64(message.BlockHeight()) == cur)
@@ -82,7 +82,13 @@ func C17_Filter() {
 			inst := primitives.InstanceId(env.NondetU64("inst"))
 			sender := env.NondetU8("sender")
 			fac := messagesfactory.NewMessageFactory(inst, stub.NewKeyManager(reg, primitives.MemberId{sender}), primitives.MemberId{sender}, 0)
-			pm := fac.CreatePrepareMessage(primitives.BlockHeight(mh), primitives.View(len(rec.msgs)), primitives.BlockHash{9})
+			// same kind, a view from {0,1} and possibly the same claimed sender as an earlier message: the filter sits
+			// in front of all authentication and must not let one message stand in for another
+			mv := primitives.View(0)
+			if nv := env.ParamOr("views", 1); nv > 1 {
+				mv = primitives.View(env.Choice("mview", nv))
+			}
+			pm := fac.CreatePrepareMessage(primitives.BlockHeight(mh), mv, primitives.BlockHash{byte(len(rec.msgs))})
 			m := &c17Msg{tag: len(rec.msgs), height: mh, instanceOK: inst == instance, fromMe: sender == 1, curAtRecv: cur}
 			m.cacheable = env.And(m.instanceOK, env.And(!m.fromMe, mh > cur))
 			rec.msgs = append(rec.msgs, m)
